@@ -360,6 +360,10 @@ def make_spec_builtins(eng):
             return f
         return deco
 
+    @reg("IsScalar")
+    def _is_scalar(args, kwargs, st, eng):
+        return VBool(isinstance(eng.deref(args[0], st), (VInt, VReal, VBool)))
+
     @reg("implies")
     def _implies(args, kwargs, st, eng):
         return VBool(z3.Implies(eng.truth(args[0], st), eng.truth(args[1], st)))
